@@ -16,6 +16,7 @@ import (
 
 	envoy_config_core_v3 "github.com/envoyproxy/go-control-plane/envoy/config/core/v3"
 	envoy_config_endpoint_v3 "github.com/envoyproxy/go-control-plane/envoy/config/endpoint/v3"
+	"google.golang.org/protobuf/types/known/wrapperspb"
 	v2 "mosn.io/mosn/pkg/config/v2"
 	"mosn.io/mosn/pkg/configmanager"
 	"mosn.io/mosn/pkg/router"
@@ -34,58 +35,140 @@ type opT struct {
 	Domain     string     `json:"domain,omitempty"`
 	Config     cfgT       `json:"config,omitempty"`
 	Route      *rtT       `json:"route,omitempty"`
-	Lb         string     `json:"lb,omitempty"`
-	CfgHosts   []string   `json:"cfg_hosts,omitempty"`
-	Hosts      []string   `json:"hosts,omitempty"`
-	Localities [][]string `json:"localities,omitempty"`
+	Lb         string    `json:"lb,omitempty"`
+	CfgHosts   []hostT   `json:"cfg_hosts,omitempty"`
+	Hosts      []hostT   `json:"hosts,omitempty"`
+	Addrs      []string  `json:"addrs,omitempty"`
+	Localities [][]epT   `json:"localities,omitempty"`
+}
+
+// hostT: everything v2.Host carries
+type hostT struct {
+	Addr       string            `json:"address"`
+	Weight     uint32            `json:"weight,omitempty"`
+	Hostname   string            `json:"hostname,omitempty"`
+	TLSDisable bool              `json:"tls_disable,omitempty"`
+	Meta       map[string]string `json:"metadata,omitempty"`
+}
+
+// epT: one xDS LbEndpoint (Weight < 0: no load_balancing_weight)
+type epT struct {
+	Addr   string `json:"address"`
+	Weight int    `json:"weight"`
+}
+
+func (h hostT) coq() string {
+	return fmt.Sprintf("Build_host %s %s %s %s %s", CoqString(h.Addr), CoqNat(int(h.Weight)), CoqString(h.Hostname), CoqBool(h.TLSDisable), coqPairs(h.Meta))
+}
+
+func coqHosts(hs []hostT) string {
+	var it []string
+	for _, h := range hs {
+		it = append(it, h.coq())
+	}
+	return CoqList(it)
+}
+
+func (h hostT) String() string {
+	return fmt.Sprintf("%s/w%d/%q/tls_disable=%v/%s", h.Addr, h.Weight, h.Hostname, h.TLSDisable, fmtMap(h.Meta))
+}
+
+func hostOfConfig(c v2.Host) hostT {
+	h := hostT{Addr: c.Address, Weight: c.Weight, Hostname: c.Hostname, TLSDisable: c.TLSDisable}
+	if len(c.MetaData) > 0 {
+		h.Meta = map[string]string{}
+		for k, v := range c.MetaData {
+			h.Meta[k] = v
+		}
+	}
+	return h
+}
+
+func hostsString(hs []hostT) string {
+	var it []string
+	for _, h := range hs {
+		it = append(it, h.String())
+	}
+	return "[" + strings.Join(it, " ") + "]"
 }
 
 var lbCodes = map[string]int{"LB_RANDOM": 1, "LB_ROUNDROBIN": 2, "LB_LEAST_REQUEST": 3, "": 0}
 var lbNames = []string{"LB_RANDOM", "LB_ROUNDROBIN", "LB_LEAST_REQUEST"}
 
-func hostsV2(addrs []string) []v2.Host {
-	if addrs == nil {
+func hostsV2(hosts []hostT) []v2.Host {
+	if hosts == nil {
 		return nil
 	}
-	hs := make([]v2.Host, 0, len(addrs))
-	for _, a := range addrs {
-		hs = append(hs, v2.Host{HostConfig: v2.HostConfig{Address: a}})
+	hs := make([]v2.Host, 0, len(hosts))
+	for _, h := range hosts {
+		c := v2.Host{HostConfig: v2.HostConfig{Address: h.Addr, Weight: h.Weight, Hostname: h.Hostname, TLSDisable: h.TLSDisable}}
+		if h.Meta != nil {
+			c.MetaData = map[string]string{}
+			for k, v := range h.Meta {
+				c.MetaData[k] = v
+			}
+		}
+		hs = append(hs, c)
 	}
 	return hs
 }
 
-func loadAssignment(name string, localities [][]string) *envoy_config_endpoint_v3.ClusterLoadAssignment {
+func loadAssignment(name string, localities [][]epT) *envoy_config_endpoint_v3.ClusterLoadAssignment {
 	la := &envoy_config_endpoint_v3.ClusterLoadAssignment{ClusterName: name}
 	for li, l := range localities {
 		le := &envoy_config_endpoint_v3.LocalityLbEndpoints{
 			Locality: &envoy_config_core_v3.Locality{Region: fmt.Sprintf("region-%d", li), Zone: fmt.Sprintf("zone-%d", li)},
 			Priority: 0,
 		}
-		for _, addr := range l {
+		for _, ep := range l {
+			addr := ep.Addr
 			i := strings.LastIndex(addr, ":")
 			var port uint32
 			fmt.Sscanf(addr[i+1:], "%d", &port)
-			le.LbEndpoints = append(le.LbEndpoints, &envoy_config_endpoint_v3.LbEndpoint{
+			lbe := &envoy_config_endpoint_v3.LbEndpoint{
 				HostIdentifier: &envoy_config_endpoint_v3.LbEndpoint_Endpoint{Endpoint: &envoy_config_endpoint_v3.Endpoint{
 					Address: &envoy_config_core_v3.Address{Address: &envoy_config_core_v3.Address_SocketAddress{SocketAddress: &envoy_config_core_v3.SocketAddress{
 						Address: addr[:i], PortSpecifier: &envoy_config_core_v3.SocketAddress_PortValue{PortValue: port}}}}}},
-			})
+			}
+			if ep.Weight >= 0 {
+				lbe.LoadBalancingWeight = &wrapperspb.UInt32Value{Value: uint32(ep.Weight)}
+			}
+			le.LbEndpoints = append(le.LbEndpoints, lbe)
 		}
 		la.Endpoints = append(la.Endpoints, le)
 	}
 	return la
 }
 
-func liveHosts(name string) (lb string, hosts []string, ok bool) {
+// hostsOfSet: the hosts of a host set with their attributes, sorted by address.  The attributes are read through the
+// accessors the load balancers and the upstream code use (Weight, Hostname, Metadata) and tls_disable through Config();
+// accessorMismatch reports a host whose Config() disagrees with its accessors
+func hostsOfSet(hs types.HostSet) (hosts []hostT, accessorMismatch string) {
+	hs.Range(func(h types.Host) bool {
+		c := hostOfConfig(h.Config())
+		a := hostT{Addr: h.AddressString(), Weight: h.Weight(), Hostname: h.Hostname(), TLSDisable: c.TLSDisable}
+		if md := h.Metadata(); len(md) > 0 {
+			a.Meta = map[string]string{}
+			for k, v := range md {
+				a.Meta[k] = v
+			}
+		}
+		if a.String() != c.String() {
+			accessorMismatch = fmt.Sprintf("accessors %s, Config() %s", a, c)
+		}
+		hosts = append(hosts, a)
+		return true
+	})
+	sort.SliceStable(hosts, func(i, j int) bool { return hosts[i].Addr < hosts[j].Addr })
+	return
+}
+
+func liveHosts(name string) (lb string, hosts []hostT, ok bool) {
 	snap := cluster.GetClusterMngAdapterInstance().GetClusterSnapshot(context.Background(), name)
 	if snap == nil {
 		return "", nil, false
 	}
-	snap.HostSet().Range(func(h types.Host) bool {
-		hosts = append(hosts, h.AddressString())
-		return true
-	})
-	sort.Strings(hosts)
+	hosts, _ = hostsOfSet(snap.HostSet())
 	return string(snap.ClusterInfo().LbType()), hosts, true
 }
 
@@ -98,21 +181,25 @@ func coqOp(o opT) string {
 	case "remove-routes":
 		return fmt.Sprintf("ORemoveAllRoutes %s %s", CoqString(o.Name), CoqString(o.Domain))
 	case "cluster":
-		return fmt.Sprintf("OAddOrUpdateCluster %s %s %s", CoqString(o.Name), CoqNat(lbCodes[o.Lb]), coqStrList(o.CfgHosts))
+		return fmt.Sprintf("OAddOrUpdateCluster %s %s %s", CoqString(o.Name), CoqNat(lbCodes[o.Lb]), coqHosts(o.CfgHosts))
 	case "cluster-hosts":
-		return fmt.Sprintf("OAddOrUpdateClusterAndHosts %s %s %s %s", CoqString(o.Name), CoqNat(lbCodes[o.Lb]), coqStrList(o.CfgHosts), coqStrList(o.Hosts))
+		return fmt.Sprintf("OAddOrUpdateClusterAndHosts %s %s %s %s", CoqString(o.Name), CoqNat(lbCodes[o.Lb]), coqHosts(o.CfgHosts), coqHosts(o.Hosts))
 	case "remove-clusters":
 		return fmt.Sprintf("ORemoveClusters %s", coqStrList(o.Names))
 	case "update-hosts":
-		return fmt.Sprintf("OUpdateHosts %s %s", CoqString(o.Name), coqStrList(o.Hosts))
+		return fmt.Sprintf("OUpdateHosts %s %s", CoqString(o.Name), coqHosts(o.Hosts))
 	case "append-hosts":
-		return fmt.Sprintf("OAppendHosts %s %s", CoqString(o.Name), coqStrList(o.Hosts))
+		return fmt.Sprintf("OAppendHosts %s %s", CoqString(o.Name), coqHosts(o.Hosts))
 	case "remove-hosts":
-		return fmt.Sprintf("ORemoveHosts %s %s", CoqString(o.Name), coqStrList(o.Hosts))
+		return fmt.Sprintf("ORemoveHosts %s %s", CoqString(o.Name), coqStrList(o.Addrs))
 	case "endpoints":
 		var ls []string
 		for _, l := range o.Localities {
-			ls = append(ls, coqStrList(l))
+			var es []string
+			for _, e := range l {
+				es = append(es, fmt.Sprintf("Build_endpoint %s %s", CoqString(e.Addr), CoqOption(e.Weight >= 0, CoqNat(e.Weight))))
+			}
+			ls = append(ls, CoqList(es))
 		}
 		return fmt.Sprintf("OEndpoints %s %s", CoqString(o.Name), CoqList(ls))
 	}
@@ -120,6 +207,26 @@ func coqOp(o opT) string {
 }
 
 var addrPool = []string{"10.0.0.1:80", "10.0.0.2:80", "10.0.0.3:8080", "10.0.1.1:80", "10.0.1.2:443", "127.0.0.1:9000"}
+
+func genHost(r *Rng, addr string) hostT {
+	h := hostT{Addr: addr, Weight: uint32(r.Pick([]int{0, 1, 1, 5, 100, 128, 200})), Hostname: r.PickS([]string{"", "", "h1", "h2"}), TLSDisable: r.Pct(20)}
+	switch r.Intn(4) {
+	case 0:
+		h.Meta = map[string]string{"zone": r.PickS([]string{"a", "b"})}
+	case 1:
+		h.Meta = map[string]string{"zone": r.PickS([]string{"a", "b"}), "version": r.PickS([]string{"1", "2"})}
+	}
+	return h
+}
+
+func pickHosts(r *Rng, max int) []hostT {
+	n := r.Intn(max + 1)
+	out := []hostT{}
+	for i := 0; i < n; i++ {
+		out = append(out, genHost(r, r.PickS(addrPool)))
+	}
+	return out
+}
 
 func pickAddrs(r *Rng, max int) []string {
 	n := r.Intn(max + 1)
@@ -130,16 +237,26 @@ func pickAddrs(r *Rng, max int) []string {
 	return out
 }
 
-func distinctAddrs(r *Rng, n int) []string {
-	perm := append([]string(nil), addrPool...)
-	for i := len(perm) - 1; i > 0; i-- {
-		j := r.Intn(i + 1)
-		perm[i], perm[j] = perm[j], perm[i]
+// presentHosts: 1..max hosts whose addresses are (as far as the generator's bookkeeping knows) already in the cluster,
+// with freshly drawn attributes; with dup, one address may occur twice with different attributes
+func presentHosts(r *Rng, present map[string]bool, max int, dup bool) []hostT {
+	var addrs []string
+	for a := range present {
+		addrs = append(addrs, a)
 	}
-	if n > len(perm) {
-		n = len(perm)
+	sort.Strings(addrs)
+	if len(addrs) == 0 {
+		return pickHosts(r, max)
 	}
-	return perm[:n]
+	n := 1 + r.Intn(max)
+	var out []hostT
+	for i := 0; i < n; i++ {
+		out = append(out, genHost(r, addrs[r.Intn(len(addrs))]))
+	}
+	if dup && len(out) > 0 {
+		out = append(out, genHost(r, out[0].Addr))
+	}
+	return out
 }
 
 func c12(args []string) int {
@@ -149,11 +266,11 @@ func c12(args []string) int {
 	rm := router.GetRoutersMangerInstance()
 	cvt := conv.NewConverter()
 	g := &rtGen{r: r, keepIDs: true}
-	run.Sum.Rule = "operation histories of 4-25 operations over 2 router names, 2 cluster names and 1 unknown name per history: AddOrUpdateRouters (generated configurations as in C04, ~20% rejected), AddRoute / RemoveAllRoutes (domains: configured ones, other hosts, mixed case, empty, malformed; 8% unbuildable routes), AddOrUpdatePrimaryCluster, AddOrUpdateClusterAndHost, RemovePrimaryCluster (1-2 names, unknown ones included), Update/Append/RemoveClusterHosts (addresses from a pool of 6, duplicates allowed), and ConvertUpdateEndpoints with real ClusterLoadAssignment protos of 0-3 localities; then a battery of requests per router name and the host set / lb type per cluster name are read from the real managers.  Non-trivial: a history in which some object was updated at least twice; distinct by (history number, seed)."
+	run.Sum.Rule = "operation histories of 4-25 operations (quick: 300 histories, thorough: 2400) over 2 router names, 2 cluster names and 1 unknown name per history: AddOrUpdateRouters (generated configurations as in C04, ~20% rejected), AddRoute / RemoveAllRoutes (domains: configured ones, other hosts, mixed case, empty, malformed; 8% unbuildable routes), AddOrUpdatePrimaryCluster, AddOrUpdateClusterAndHost, RemovePrimaryCluster (1-2 names, unknown ones included), Update/Append/RemoveClusterHosts (hosts = address from a pool of 6 + weight, hostname, tls_disable, metadata; duplicates inside a batch; 12% of the operations re-append and a third of the updates re-send addresses that are already present with other attributes; removal of a present address followed later by its re-append), and ConvertUpdateEndpoints with real ClusterLoadAssignment protos of 0-3 localities (optional load_balancing_weight incl. 0 and 500, an address repeated in a later locality with another weight); then a battery of requests per router name and the hosts WITH their attributes (Weight(), Hostname(), Metadata(), Config()) and lb type per cluster name are read from the real managers, from clusters rebuilt from the dump, and from the dumped host entries themselves.  Non-trivial: a history in which some object was updated at least twice; distinct by (history number, seed)."
 	header := "From MV Require Import Model.Router Model.Update Gen.EndpointSrc.\nFrom Coq Require Import List String.\nImport ListNotations.\nOpen Scope string_scope.\n"
 	sh := run.NewShard(header, "up_case", "up_mismatches endpoints_update_per_locality")
 	weight := 0
-	nh := run.N(160, 1600)
+	nh := run.N(300, 2400)
 	for hi := 0; hi < nh; hi++ {
 		pfx := fmt.Sprintf("s%dh%d", run.Seed, hi)
 		rnames := []string{pfx + "r0", pfx + "r1"}
@@ -165,6 +282,15 @@ func c12(args []string) int {
 		nops := 4 + r.Intn(22)
 		nadd := 0
 		var lastDomains []string
+		// the generator's own bookkeeping of which clusters exist and which addresses they hold (only used to aim operations)
+		exists := map[string]bool{}
+		present := map[string]map[string]bool{cnames[0]: {}, cnames[1]: {}, unknown: {}}
+		setPresent := func(name string, hs []hostT) {
+			present[name] = map[string]bool{}
+			for _, h := range hs {
+				present[name][h.Addr] = true
+			}
+		}
 		for k := 0; k < nops; k++ {
 			var o opT
 			pickR := func() string {
@@ -180,14 +306,14 @@ func c12(args []string) int {
 				return r.PickS(cnames)
 			}
 			switch x := r.Intn(100); {
-			case x < 16 || k == 0:
+			case x < 12 || k == 0:
 				c := g.config()
 				o = opT{Kind: "routers", Name: pickR(), Config: c}
 				for _, vh := range c {
 					allRoutes = append(allRoutes, vh.Routes...)
 					lastDomains = append(lastDomains, vh.Domains...)
 				}
-			case x < 32:
+			case x < 24:
 				rt := g.route(fmt.Sprintf("add%d", nadd))
 				nadd++
 				if r.Pct(8) {
@@ -195,35 +321,96 @@ func c12(args []string) int {
 				}
 				allRoutes = append(allRoutes, rt)
 				o = opT{Kind: "add-route", Name: pickR(), Domain: pickDomain(r, lastDomains), Route: &rt}
-			case x < 40:
+			case x < 30:
 				o = opT{Kind: "remove-routes", Name: pickR(), Domain: pickDomain(r, lastDomains)}
-			case x < 50 || k == 1 || k == 2:
+			case x < 46 || k == 1 || k == 2:
 				name := pickC()
 				if k <= 2 && r.Pct(85) { // most histories start with both clusters present
 					name = cnames[k-1]
 				}
-				o = opT{Kind: "cluster", Name: name, Lb: r.PickS(lbNames), CfgHosts: pickAddrs(r, 2)}
-			case x < 58:
-				o = opT{Kind: "cluster-hosts", Name: pickC(), Lb: r.PickS(lbNames), CfgHosts: pickAddrs(r, 2), Hosts: pickAddrs(r, 3)}
-			case x < 64:
+				o = opT{Kind: "cluster", Name: name, Lb: r.PickS(lbNames), CfgHosts: pickHosts(r, 2)}
+				exists[name] = true
+			case x < 52:
+				o = opT{Kind: "cluster-hosts", Name: pickC(), Lb: r.PickS(lbNames), CfgHosts: pickHosts(r, 2), Hosts: pickHosts(r, 3)}
+				exists[o.Name] = true
+				setPresent(o.Name, o.Hosts)
+			case x < 56:
 				o = opT{Kind: "remove-clusters", Names: []string{pickC()}}
 				if r.Pct(30) {
 					o.Names = append(o.Names, pickC())
 				}
-			case x < 74:
-				o = opT{Kind: "update-hosts", Name: pickC(), Hosts: pickAddrs(r, 4)}
-			case x < 82:
-				o = opT{Kind: "append-hosts", Name: pickC(), Hosts: pickAddrs(r, 2)}
-			case x < 90:
-				o = opT{Kind: "remove-hosts", Name: pickC(), Hosts: pickAddrs(r, 3)}
+				all := true
+				for _, n := range o.Names {
+					all = all && exists[n]
+				}
+				if all {
+					for _, n := range o.Names {
+						exists[n] = false
+						present[n] = map[string]bool{}
+					}
+				}
+			case x < 64:
+				o = opT{Kind: "update-hosts", Name: pickC(), Hosts: pickHosts(r, 4)}
+				if r.Pct(35) { // the same addresses again, other attributes (duplicates inside the batch now and then)
+					o.Hosts = presentHosts(r, present[o.Name], 3, r.Pct(30))
+				}
+				if exists[o.Name] {
+					setPresent(o.Name, o.Hosts)
+				}
+			case x < 72:
+				o = opT{Kind: "append-hosts", Name: pickC(), Hosts: pickHosts(r, 2)}
+				if exists[o.Name] {
+					for _, h := range o.Hosts {
+						present[o.Name][h.Addr] = true
+					}
+				}
+			case x < 84:
+				// re-append of addresses that are already in the cluster, with other attributes: the new ones must win
+				name := pickC()
+				o = opT{Kind: "append-hosts", Name: name, Hosts: presentHosts(r, present[name], 2, r.Pct(30))}
+				if exists[o.Name] {
+					for _, h := range o.Hosts {
+						present[o.Name][h.Addr] = true
+					}
+				}
+				run.Sum.Distribution["gen:re-append-of-present-addresses"]++
+			case x < 91:
+				o = opT{Kind: "remove-hosts", Name: pickC(), Addrs: pickAddrs(r, 3)}
+				if r.Pct(40) && len(present[o.Name]) > 0 { // remove a present one; a later append brings it back with new attributes
+					var as []string
+					for a := range present[o.Name] {
+						as = append(as, a)
+					}
+					sort.Strings(as)
+					o.Addrs = []string{as[r.Intn(len(as))]}
+				}
+				if exists[o.Name] {
+					for _, a := range o.Addrs {
+						delete(present[o.Name], a)
+					}
+				}
 			default:
 				nl := r.Intn(4)
 				addrs := distinctAddrs(r, 6)
-				o = opT{Kind: "endpoints", Name: pickC(), Localities: [][]string{}}
+				o = opT{Kind: "endpoints", Name: pickC(), Localities: [][]epT{}}
+				var all []hostT
 				for li := 0; li < nl; li++ {
 					n := 1 + r.Intn(2)
-					o.Localities = append(o.Localities, addrs[:n])
+					var l []epT
+					for _, a := range addrs[:n] {
+						l = append(l, epT{Addr: a, Weight: r.Pick([]int{-1, -1, 0, 1, 7, 128, 500})})
+					}
+					if li > 0 && r.Pct(35) { // an address of an earlier locality again, with another weight
+						l = append(l, epT{Addr: o.Localities[0][0].Addr, Weight: r.Pick([]int{-1, 3, 64})})
+					}
+					for _, e := range l {
+						all = append(all, hostT{Addr: e.Addr})
+					}
+					o.Localities = append(o.Localities, l)
 					addrs = addrs[n:]
+				}
+				if exists[o.Name] {
+					setPresent(o.Name, all)
 				}
 			}
 			ops = append(ops, o)
@@ -260,29 +447,72 @@ func c12(args []string) int {
 				err = cluster.GetClusterMngAdapterInstance().TriggerHostAppend(o.Name, hostsV2(o.Hosts))
 				touched[o.Name]++
 			case "remove-hosts":
-				err = cluster.GetClusterMngAdapterInstance().TriggerHostDel(o.Name, o.Hosts)
+				err = cluster.GetClusterMngAdapterInstance().TriggerHostDel(o.Name, o.Addrs)
 				touched[o.Name]++
 			case "endpoints":
 				err = cvt.ConvertUpdateEndpoints([]*envoy_config_endpoint_v3.ClusterLoadAssignment{loadAssignment(o.Name, o.Localities)})
 				touched[o.Name]++
 				run.Sum.Distribution[fmt.Sprintf("endpoint-localities=%d", len(o.Localities))]++
-				// finder: an endpoint assignment yields the union of all its endpoints
+				// finder: an endpoint assignment yields the union of all its endpoints (first occurrence of an address gives the weight)
 				if _, got, ok := liveHosts(o.Name); ok {
-					var want []string
+					var want []hostT
+					seen := map[string]bool{}
 					for _, l := range o.Localities {
-						want = append(want, l...)
-					}
-					sort.Strings(want)
-					if fmt.Sprint(got) != fmt.Sprint(want) && !(len(got) == 0 && len(want) == 0) {
-						sig := "c12:endpoints-union:other"
-						if n := len(o.Localities); n >= 2 {
-							last := append([]string(nil), o.Localities[n-1]...)
-							sort.Strings(last)
-							if fmt.Sprint(got) == fmt.Sprint(last) {
-								sig = "c12:endpoints-union:last-locality-wins"
+						for _, e := range l {
+							if seen[e.Addr] {
+								continue
 							}
+							seen[e.Addr] = true
+							h := hostT{Addr: e.Addr}
+							if e.Weight >= 0 {
+								h.Weight = uint32(e.Weight)
+								if h.Weight < 1 {
+									h.Weight = 1
+								} else if h.Weight > 128 {
+									h.Weight = 128
+								}
+							}
+							want = append(want, h)
 						}
-						run.Fail(sig, fmt.Sprintf("endpoint assignment with localities %v left cluster %s with hosts %v, the union is %v", o.Localities, o.Name, got, want),
+					}
+					sort.SliceStable(want, func(i, j int) bool { return want[i].Addr < want[j].Addr })
+					if hostsString(got) != hostsString(want) {
+						sig := "c12:endpoints-union:other"
+						if n := len(o.Localities); n >= 2 && len(got) < len(want) {
+							sig = "c12:endpoints-union:last-locality-wins"
+						} else if len(got) == len(want) {
+							sig = "c12:endpoints-union:attributes"
+						}
+						run.Fail(sig, fmt.Sprintf("endpoint assignment with localities %v left cluster %s with hosts %s, the union is %s", o.Localities, o.Name, hostsString(got), hostsString(want)),
+							map[string]interface{}{"history": ops[:k+1], "op": k})
+					}
+				}
+			}
+			// finder: the last update wins, per address and with all attributes: after a successful host operation every
+			// address of the batch is held by the live cluster with the attributes of its first entry in the batch
+			if err == nil && (o.Kind == "update-hosts" || o.Kind == "append-hosts" || o.Kind == "cluster-hosts") {
+				if _, got, ok := liveHosts(o.Name); ok {
+					byAddr := map[string]hostT{}
+					for _, h := range got {
+						byAddr[h.Addr] = h
+					}
+					seen := map[string]bool{}
+					for _, h := range o.Hosts {
+						if seen[h.Addr] {
+							continue
+						}
+						seen[h.Addr] = true
+						if g, in := byAddr[h.Addr]; !in || g.String() != h.String() {
+							sig := "c12:last-update-wins:" + o.Kind + ":stale-host-attributes"
+							if !in {
+								sig = "c12:last-update-wins:" + o.Kind + ":host-missing"
+							}
+							run.Fail(sig, fmt.Sprintf("%s on cluster %s with %s: the live cluster holds %s for that address", o.Kind, o.Name, h, g),
+								map[string]interface{}{"history": ops[:k+1], "op": k})
+						}
+					}
+					if o.Kind != "append-hosts" && len(got) != len(seen) {
+						run.Fail("c12:last-update-wins:"+o.Kind+":extra-hosts", fmt.Sprintf("%s on cluster %s with %s left %s", o.Kind, o.Name, hostsString(o.Hosts), hostsString(got)),
 							map[string]interface{}{"history": ops[:k+1], "op": k})
 					}
 				}
@@ -296,11 +526,11 @@ func c12(args []string) int {
 
 		// ---- observe the live objects
 		battery := make([]reqT, 0, 12)
-		for k := 0; k < 8; k++ {
+		for k := 0; k < 5; k++ {
 			battery = append(battery, g.request())
 		}
 		for _, d := range lastDomains {
-			if len(battery) >= 14 {
+			if len(battery) >= 9 {
 				break
 			}
 			if r.Pct(40) {
@@ -339,7 +569,7 @@ func c12(args []string) int {
 		}
 		type liveCl struct {
 			lb    string
-			hosts []string
+			hosts []hostT
 			ok    bool
 		}
 		liveC := map[string]liveCl{}
@@ -348,7 +578,7 @@ func c12(args []string) int {
 			liveC[name] = liveCl{lb, hosts, ok}
 			got := "None"
 			if ok {
-				got = fmt.Sprintf("(Some (%s, %s))", CoqNat(lbCodes[lb]), coqStrList(hosts))
+				got = fmt.Sprintf("(Some (%s, %s))", CoqNat(lbCodes[lb]), coqHosts(hosts))
 			}
 			cobs = append(cobs, fmt.Sprintf("(%s, %s)", CoqString(name), got))
 		}
@@ -442,18 +672,32 @@ func c12(args []string) int {
 			}
 			fc := cluster.NewCluster(cc)
 			cluster.NewSimpleHostHandler(fc, cc.Hosts)
-			var fh []string
-			fc.Snapshot().HostSet().Range(func(h types.Host) bool {
-				fh = append(fh, h.AddressString())
-				return true
-			})
-			sort.Strings(fh)
-			cdump = append(cdump, fmt.Sprintf("(%s, (Some (%s, %s)))", CoqString(name), CoqNat(lbCodes[string(fc.Snapshot().ClusterInfo().LbType())]), coqStrList(fh)))
-			if flb := string(fc.Snapshot().ClusterInfo().LbType()); flb != l.lb || fmt.Sprint(fh) != fmt.Sprint(l.hosts) {
-				run.Fail("c12:cluster-live-differs-from-dump", fmt.Sprintf("cluster %s: live %s %v, built from the dumped configuration %s %v", name, l.lb, l.hosts, flb, fh), rep)
+			fh, mism := hostsOfSet(fc.Snapshot().HostSet())
+			if mism != "" {
+				run.Fail("c12:host-config-differs-from-accessors", "cluster "+name+": "+mism, rep)
+			}
+			cdump = append(cdump, fmt.Sprintf("(%s, (Some (%s, %s)))", CoqString(name), CoqNat(lbCodes[string(fc.Snapshot().ClusterInfo().LbType())]), coqHosts(fh)))
+			if flb := string(fc.Snapshot().ClusterInfo().LbType()); flb != l.lb || hostsString(fh) != hostsString(l.hosts) {
+				sig := "c12:cluster-live-differs-from-dump"
+				if flb == l.lb && len(fh) == len(l.hosts) {
+					sig = "c12:cluster-live-differs-from-dump:host-attributes"
+				}
+				run.Fail(sig, fmt.Sprintf("cluster %s: live %s %s, built from the dumped configuration %s %s", name, l.lb, hostsString(l.hosts), flb, hostsString(fh)), rep)
+			}
+			// the dumped host entries themselves (not only what a cluster built from them reports)
+			var dh []hostT
+			seenD := map[string]bool{}
+			for _, hc := range cc.Hosts {
+				if !seenD[hc.Address] {
+					seenD[hc.Address] = true
+					dh = append(dh, hostOfConfig(hc))
+				}
+			}
+			sort.SliceStable(dh, func(i, j int) bool { return dh[i].Addr < dh[j].Addr })
+			if hostsString(dh) != hostsString(l.hosts) {
+				run.Fail("c12:dumped-hosts-differ-from-live", fmt.Sprintf("cluster %s: live %s, dumped host entries %s", name, hostsString(l.hosts), hostsString(dh)), rep)
 			}
 		}
-
 		reportPanics(run, "c12", rep)
 		nontrivial := false
 		for _, n := range touched {
@@ -499,4 +743,16 @@ func pickDomain(r *Rng, configured []string) string {
 		return d
 	}
 	return r.PickS([]string{"a.com", "x.a.com:80", "", "nowhere.invalid", "::1", "*", "A.COM", "q.com:8080"})
+}
+
+func distinctAddrs(r *Rng, n int) []string {
+	perm := append([]string(nil), addrPool...)
+	for i := len(perm) - 1; i > 0; i-- {
+		j := r.Intn(i + 1)
+		perm[i], perm[j] = perm[j], perm[i]
+	}
+	if n > len(perm) {
+		n = len(perm)
+	}
+	return perm[:n]
 }
